@@ -197,7 +197,8 @@ pub fn gen_scope(rng: &mut Rng, _k: usize, _tier: &str) -> J {
     let qualified = rng.chance(1, 3);
     // `partial`: a schema-qualified, unaliased table referred to by its last component only (`tt.a` for `sa.tt`)
     let partial = qualified && ralias.contains('.') && rng.chance(1, 2);
-    let reference = if partial { format!("{}.{rcol}", ralias.rsplit('.').next().unwrap()) } else if qualified { format!("{ralias}.{rcol}") } else { rcol.to_string() };
+    // an unquoted name is case-insensitive: `A` is `a` (one unqualified reference in four is written in upper case, with the same expected outcome)
+    let reference = if partial { format!("{}.{rcol}", ralias.rsplit('.').next().unwrap()) } else if qualified { format!("{ralias}.{rcol}") } else if rng.chance(1, 4) { rcol.to_uppercase() } else { rcol.to_string() };
     let same_last = items.iter().filter(|(_, a)| a.rsplit('.').next() == ralias.rsplit('.').next()).count();
     let holders: Vec<usize> = (0..n).filter(|i| TABLES[items[*i].0].1.contains(&rcol)).collect();
     // `wildcard`: the reference is made from outside, through `SELECT *` over the join (always unqualified)
